@@ -28,6 +28,7 @@ func init() {
 	}
 
 	Symbols["log/log"] = map[string]reflect.Value{
+		"Default": reflect.ValueOf(log.Default),
 		"Fatal":   reflect.ValueOf(log.Fatal),
 		"Fatalf":  reflect.ValueOf(log.Fatalf),
 		"Fatalln": reflect.ValueOf(log.Fatalln),
